@@ -100,4 +100,72 @@ theorem metricKnown_iff (st : State) (m : Metric) : metricKnown st m = true ↔ 
       simp only [List.any_cons, this, Bool.false_or, List.filter_cons, Bool.false_eq_true, if_false]
       exact ih
 
+/-! ### series ids of a metric are 0, 1, 2, … (`createSeriesID`) -/
+
+/-- per metric the series store holds the ids 0 … n-1, in order of creation -/
+def SeriesDense (st : State) : Prop := ∀ m, allSeries st m = List.range (nextSeriesId st m)
+
+theorem seriesDense_init : SeriesDense State.init := fun _ => rfl
+
+theorem seriesDense_of_series {a b : State} (h : a.series = b.series) (hd : SeriesDense b) : SeriesDense a := by
+  intro m
+  have := hd m
+  unfold allSeries nextSeriesId at *
+  rw [h]; exact this
+
+theorem addTag_series (st : State) (m : Metric) (sid : SeriesId) (kv : Bytes × Bytes) :
+    (addTag st m sid kv).series = st.series := by
+  have fa := genTagValueID_frame (genTagKeyID st m kv.1).1 (genTagKeyID st m kv.1).2 kv.2
+  have ga := genTagKeyID_frame st m kv.1
+  rw [addTag_eq]
+  simp only [indexTag]
+  rw [fa.2.2.2.2.1, ga.2.2.2.1]
+
+theorem foldl_addTag_series (m : Metric) (sid : SeriesId) (tags : Tags) (st : State) :
+    (tags.foldl (fun s kv => addTag s m sid kv) st).series = st.series := by
+  induction tags generalizing st with
+  | nil => rfl
+  | cons kv t ih => simp only [List.foldl_cons]; rw [ih, addTag_series]
+
+theorem write_seriesDense {st : State} (h : SeriesDense st) (m : Metric) (tags : Tags) :
+    SeriesDense (write st m tags).1 := by
+  unfold write
+  cases Map.lookup st.series (m, tags) with
+  | some sid => exact h
+  | none =>
+    apply seriesDense_of_series (foldl_addTag_series m (nextSeriesId st m) tags _)
+    intro m'
+    have hm := h m'
+    unfold allSeries nextSeriesId at *
+    simp only [List.filter_append, List.map_append, List.length_append]
+    by_cases he : m = m'
+    · subst he
+      simp only [List.filter_cons, beq_self_eq_true, if_true, List.filter_nil, List.map_cons, List.map_nil,
+        List.length_cons, List.length_nil, Nat.zero_add]
+      rw [List.range_succ, hm]
+    · have : (m == m') = false := by simpa using he
+      simp only [List.filter_cons, this, Bool.false_eq_true, if_false, List.filter_nil, List.map_nil,
+        List.append_nil, List.length_nil, Nat.add_zero]
+      exact hm
+
+theorem step_seriesDense (F : Flags) {st : State} (h : SeriesDense st) (s : Step) : SeriesDense (st.step F s) :=
+  seriesDense_of_series (core_eq_iff.mp (step_core F st s)).2.2.1 h
+
+theorem run_seriesDense (F : Flags) (ops : List Op) {st : State} (h : SeriesDense st) : SeriesDense (run F ops st) := by
+  induction ops generalizing st with
+  | nil => exact h
+  | cons op r ih =>
+    cases op with
+    | write m tags => simp only [run, List.foldl_cons, applyOp]; exact ih (write_seriesDense h m tags)
+    | place s => simp only [run, List.foldl_cons, applyOp]; exact ih (step_seriesDense F h s)
+
+/-- with dense ids, a known metric has the series id 0 (`series.IDWithoutTags`) -/
+theorem zero_mem_allSeries {st : State} (hd : SeriesDense st) {m : Metric} (hk : metricKnown st m = true) :
+    0 ∈ allSeries st m := by
+  have hne := (metricKnown_iff st m).mp hk
+  rw [hd m] at hne ⊢
+  cases hn : nextSeriesId st m with
+  | zero => rw [hn] at hne; exact absurd rfl hne
+  | succ n => simp [List.mem_range]
+
 end LinVerif.TagFilter
